@@ -150,10 +150,60 @@ def scope_is_local(ctx, cr):
     ctx.ob(rule, rule + ":no-collection-of-RootScope", not bad, "RootScope values are collected in %s" % sorted(set(bad))[:3] if bad else "no Vec/Map/Rc/Box of RootScope anywhere")
 
 
+def per_document_counters(ctx, cr):
+    """the JUnit rendering of `validate` builds one <testsuite> per data file; what it says about a data file must not depend on the
+    data files before it: every counter that feeds a field of the per-file TestSuite is (re)initialised inside the loop over the
+    data files — a counter initialised before the loop carries the earlier files' failures into the later suites"""
+    from rules.c05 import loop_blocks
+    from rules.c08 import def_of_local
+    rule = "R-C12-fresh-scope"
+    k = next((x for x in cr.fns if "JunitReporter as" in x and x.endswith("StructuredReporter>::report")), None)
+    if not k:
+        ctx.lost(rule, rule + ":junit-per-file-counters", "JunitReporter::report")
+        return
+    f = cr.fns[k]
+    header = None
+    for bi, t in M.iter_calls(f):
+        if M.norm_path(t["fn"].get("decl", "")) == "std::iter::Iterator::next":
+            header = bi
+            break
+    if header is None:
+        ctx.lost(rule, rule + ":junit-per-file-counters", "the loop over the data files")
+        return
+    inloop = loop_blocks(f, header)
+    TS = "commands::reporters::TestSuite"
+    fields = [x["name"] for x in cr.adts[TS]["variants"][0]["fields"]] if TS in cr.adts else []
+    found = 0
+    bad = []
+    for bi, si, st in M.iter_stmts(f):
+        rv = st.get("rv")
+        if not (rv and rv["r"] == "agg" and rv.get("adt") == TS and bi in inloop):
+            continue
+        for name in ("errors", "failures"):
+            if name not in fields:
+                continue
+            pl = M.op_place(rv["ops"][fields.index(name)])
+            src = M.place_local(pl) if pl is not None else None
+            for _ in range(5):            # copies back to the named counter
+                d = def_of_local(f, src) if src is not None else None
+                if d and d[0] == "stmt" and d[2]["rv"]["r"] == "use" and M.op_place(d[2]["rv"]["o"]) is not None:
+                    src = M.place_local(M.op_place(d[2]["rv"]["o"]))
+                else:
+                    break
+            inits = [b2 for b2, s2, st2 in M.iter_stmts(f) if st2.get("p") == src and "rv" in st2 and st2["rv"]["r"] == "use" and "k" in st2["rv"]["o"]]
+            found += 1
+            if not inits:
+                bad.append("no constant initialisation of the %s counter found" % name)
+            elif not all(b2 in inloop for b2 in inits):
+                bad.append("the %s counter of the per-file suite is initialised before the loop over the data files: later suites include the earlier files' %s" % (name, name))
+    ctx.ob(rule, rule + ":junit-per-file-counters", found >= 2 and not bad, "; ".join(bad) or "%d per-file counters, each initialised inside the data-file loop" % found, fn=f)
+
+
 def run(ctx):
     fresh_scope(ctx, ctx.lib)
     no_global_state(ctx, [ctx.lib, ctx.bin, ctx.crate("cfn_guard_lambda-lib"), ctx.crate("cfn_guard_ffi-lib")])
     scope_is_local(ctx, ctx.lib)
+    per_document_counters(ctx, ctx.lib)
     ctx.positive_control("R-C12-no-global-state", "statics", lambda sub, fx: no_global_state(sub, [fx]), ["COUNTER", "CACHE", "HITS", "SCRATCH"])
     ctx.assumptions += [
         "loops are explored for up to %d scope creations per path; a scope reuse that only appears later is outside this bound" % MAX_GEN,
